@@ -1,10 +1,11 @@
+import os
 subs=[("idle","stepIdle",True),("begin","stepBegin",False),("commit","stepCommit",False),("abort","stepAbort",False),("after","stepAfter",True),("use","stepUse",False),("sess","stepSess",False),("close","stepClose",False),("exp","stepExp",False)]
 pcname={"idle":".idle","after":".after"}
 out='''/-
   Lungo.Proofs.ConcProgress — progress: invariants about Close / the expiry actor and the
   no-deadlock argument.  (Per-sub-machine lemmas generated mechanically.)
 -/
-import Lungo.Proofs.ConcUnshared
+import Lungo.Proofs.ConcInvDefs
 namespace Lungo.Conc
 
 /-- control states of the expiry goroutine (actor 0): it never becomes an idle client -/
@@ -90,4 +91,4 @@ theorem xinv_reachable {n : Nat} {s : State} (h : Reachable n s) : Xinv s := by
 
 end Lungo.Conc
 '''
-open('/root/wt/a4/lean/Lungo/Proofs/ConcProgress.lean','w').write(out)
+open(os.path.join(os.path.dirname(os.path.abspath(__file__)),'..','Lungo','Proofs')+'/ConcProgress.lean','w').write(out)
